@@ -188,3 +188,17 @@ def run(ctx: Context) -> None:  # noqa: F811
 
     ctx.rep.rule('C12.R9', 'async tree: every test / suspension / write sequence on a field of a task-shared object is one critical section of an async lock that all writers of the field hold')
     _support.await_atomicity_census(ctx, 'C12.R9')
+
+
+
+_core_run_r10 = run
+
+
+def run(ctx: Context) -> None:  # noqa: F811
+    _core_run_r10(ctx)
+    from .c03 import drain_write_atomic
+
+    ctx.rep.rule("C12.R10", "one caller abandoning its request cannot damage the other streams: the frames a task has drained from the shared h2 state machine "
+                            "(HPACK table, stream states and windows already updated) cannot be dropped by a cancellation before they are written")
+    drain_write_atomic(ctx, "C12.R10", "a request cancelled there takes frames with it that the shared encoder has already accounted for - the server's HPACK table falls behind, "
+                                       "every LATER request on the connection is decoded wrongly or refused (COMPRESSION_ERROR, GOAWAY) although its caller did nothing")
